@@ -135,7 +135,9 @@ def run(ctx: Context, col) -> None:
         seen[kq] = (o, fn)
         stack.extend(eff.callees(fn, o))
     writers = sorted(fn.name for (o, fn) in seen.values() if "batch_order" in eff.direct(fn)[1])
-    ok6 = writers == ["_initialize_solver_state_elements", "_restore_state_from_checkpoint"]
+    # the constructor's None and a restore from a checkpoint (which can only bring back that None) are the only writers
+    ok6 = not (set(writers) - {"_initialize_solver_state_elements", "_restore_state_from_checkpoint"}) \
+        and "_initialize_solver_state_elements" in writers
     # and the constructor writes None
     io, ifn = ctx.ct.require(cls, "_initialize_solver_state_elements")
     nones = [s for s in ast.walk(ifn) if isinstance(s, ast.Assign) and any(is_self_attr(t, "batch_order") for t in s.targets)]
